@@ -752,6 +752,10 @@ public:
     {
         if (count == 0) // empty slice
             return 0;
+        if (iovcnt() == 0) { // nothing to slice from: an empty result, not an error
+            iov->iovcnt = 0;
+            return 0;
+        }
         if (iov->iovcnt == 0) {
             auto ptr = (struct iovec*)do_malloc(iovcnt() * sizeof(struct iovec));
             if (!ptr) {
